@@ -30,11 +30,12 @@
 (*   "MtxfAlways"  MTXF is always written for WotLK+ (version marker)      *)
 (*   "BmeshNotMop" version detection ignores MBMH/MBBB/MBNV/MBMI: a MoP    *)
 (*                 tile with blend mesh but no MTXP loses the blend mesh   *)
-(* Since the fix commits 4e9fa43, e3ee833, 428fad3, b1275d8, 1531bd2 the   *)
-(* code has only "Pad8" and "MtxfAlways" (MC_AdtLayout.cfg); McinExcl,     *)
-(* MtxfToEof, RefsTriple, InjectMfbo, MclqIncl describe the repaired       *)
-(* defects and are kept so that each can be shown to violate its strict    *)
-(* invariant (MC_AdtLayout_dev<Name>.cfg, MC_AdtLayout_legacy.cfg).        *)
+(* Since the fix commits 4e9fa43, e3ee833, 428fad3, b1275d8, 1531bd2 and   *)
+(* 7ec19f1 the code has only "Pad8" and "MtxfAlways" (MC_AdtLayout.cfg).   *)
+(* McinExcl, MtxfToEof, RefsTriple, InjectMfbo, MclqIncl, BmeshNotMop      *)
+(* describe the repaired defects and are kept so that each can be shown to *)
+(* violate its strict invariant (MC_AdtLayout_dev<Name>.cfg, hand-run) and *)
+(* as the pre-fix model MC_AdtLayout_legacy.cfg.                           *)
 (* Mutant switch (sanity of the invariants, never on in a cfg):            *)
 (*   MhdrFileRelative  MHDR offsets relative to file start                 *)
 (***************************************************************************)
